@@ -50,7 +50,7 @@ Record cstate := mkSt {
   st_held : list obj }.
 
 (* BPlusTree(capacity) / S(capacity) / BPlusTreeMap(capacity=capacity) *)
-Definition st_init (capacity : nat) : cstate * out :=
+Definition st_init (capacity : Z) : cstate * out :=
   match tree_init capacity with
   | Some t => (mkSt (Some t) None [] [] [], UNone)
   | None => (mkSt None None [] [] [], UValueError)
@@ -134,7 +134,7 @@ Fixpoint w_copy_loop (fuel : nat) (t : ctree) (it : citer) (nt : ctree) (rc : rc
   end.
 
 Definition w_copy (t : ctree) (rc : rcmap) : res (option ctree * rcmap) :=
-  match tree_init DEFAULT_CAPACITY with
+  match tree_init (Z.of_nat DEFAULT_CAPACITY) with
   | None => Ok (None, rc)
   | Some nt =>
       do it <- iter_new t true;
@@ -303,7 +303,7 @@ Definition finish (s : cstate) : res rcmap :=
 
 (* what BPlusTree_init would do if the capacity were narrowed to uint16_t without a
    range check (the code before the repair): used only for the _refuted example *)
-Definition tree_init_legacy (capacity : nat) : option ctree :=
-  if Nat.ltb capacity MIN_CAPACITY then None
-  else let c := N.to_nat (N.of_nat capacity mod 65536) in
+Definition tree_init_legacy (capacity : Z) : option ctree :=
+  if Z.ltb capacity MIN_CAPACITY then None
+  else let c := Z.to_nat (capacity mod 65536) in
        Some (mkTree (node_create 1%N NLeaf c) 1%N c 0 0 2%N).
